@@ -3,6 +3,7 @@ package rules
 import (
 	"fmt"
 	"go/ast"
+	"go/token"
 	"go/types"
 	"sort"
 	"strings"
@@ -137,6 +138,77 @@ func (c *Ctx) lexemeDispatch() (fn *ast.FuncDecl, handlers map[string][]*types.F
 			return false
 		})
 	})
+	if fn != nil {
+		return fn, handlers, hasDefault
+	}
+	// the table form: a package-level map from the lexeme type to handler functions (method
+	// expressions or function names), indexed by the dispatching function
+	var table *types.Var
+	for _, file := range pk.Syntax {
+		for _, decl := range file.Decls {
+			gd, ok := decl.(*ast.GenDecl)
+			if !ok || gd.Tok != token.VAR {
+				continue
+			}
+			for _, sp := range gd.Specs {
+				vs, ok := sp.(*ast.ValueSpec)
+				if !ok || len(vs.Names) != 1 || len(vs.Values) != 1 {
+					continue
+				}
+				cl, ok := ast.Unparen(vs.Values[0]).(*ast.CompositeLit)
+				if !ok {
+					continue
+				}
+				mt, ok := pk.TypesInfo.TypeOf(cl).Underlying().(*types.Map)
+				if !ok || !types.Identical(mt.Key(), lt) {
+					continue
+				}
+				for _, el := range cl.Elts {
+					kv, ok := el.(*ast.KeyValueExpr)
+					if !ok {
+						continue
+					}
+					var kname string
+					if ks, ok := ast.Unparen(kv.Key).(*ast.SelectorExpr); ok {
+						if cst, ok := pk.TypesInfo.ObjectOf(ks.Sel).(*types.Const); ok {
+							kname = cst.Name()
+						}
+					}
+					var f *types.Func
+					switch v := ast.Unparen(kv.Value).(type) {
+					case *ast.SelectorExpr:
+						f, _ = pk.TypesInfo.ObjectOf(v.Sel).(*types.Func)
+					case *ast.Ident:
+						f, _ = pk.TypesInfo.ObjectOf(v).(*types.Func)
+					}
+					if kname != "" && f != nil {
+						handlers[kname] = []*types.Func{f}
+					}
+				}
+				if len(handlers) > 0 {
+					table, _ = pk.TypesInfo.ObjectOf(vs.Names[0]).(*types.Var)
+				}
+			}
+		}
+	}
+	if table != nil {
+		c.P.Funcs(func(p *packages.Package, fd *ast.FuncDecl) {
+			if p != pk {
+				return
+			}
+			ast.Inspect(fd.Body, func(n ast.Node) bool {
+				ix, ok := n.(*ast.IndexExpr)
+				if !ok {
+					return true
+				}
+				if id, ok := ast.Unparen(ix.X).(*ast.Ident); ok && pk.TypesInfo.ObjectOf(id) == types.Object(table) {
+					fn = fd
+					hasDefault = true // a missing key is handled by the comma-ok form (or yields a nil call: X1/P1 territory)
+				}
+				return true
+			})
+		})
+	}
 	return fn, handlers, hasDefault
 }
 
